@@ -150,3 +150,80 @@ func VerifC15Lockstep() {
 	}
 	verifCover("end")
 }
+
+func init() {
+	verifHarnesses["VerifC15TableSim"] = VerifC15TableSim
+}
+
+func verifInSim(s, r int) bool {
+	in := false
+	for _, p := range verifSimPairs {
+		if p[0] == s && p[1] == r {
+			in = true
+		}
+	}
+	return in
+}
+
+// VerifC15TableSim: the shipped tables simulate the reference canonical LR(1) automaton of
+// spec/gocc2.ebnf step by step. verifSimPairs (computed by the driver by a search from (0,0))
+// is the candidate relation between shipped states and reference states; for EVERY pair in it,
+// every terminal (symbolic) and every nonterminal (symbolic) the two automata must take
+// corresponding actions into pairs of the relation again. Together with the lock-step run of
+// the real Parse loop on short inputs this extends "accepts the same language, performs the
+// documented reductions" to token sequences of every length.
+func VerifC15TableSim() {
+	nt := len(verifTermNames)
+	tm := token.FRONTENDTokens
+	t := verifNondetInt("term")
+	verifAssume(0 <= t && t <= nt) // nt = end of input
+	typ := token.EOF
+	for k := 0; k < nt; k++ {
+		if t == k {
+			typ = tm.Type(verifTermNames[k])
+		}
+	}
+	a := verifNondetInt("nonterm")
+	verifAssume(0 <= a && a < len(verifNTNames))
+	for _, p := range verifSimPairs {
+		s, r := p[0], p[1]
+		verifAssert(!ActionTable[s].canRecover, "no state of gocc's own parser is a recovery state")
+		act, ok := ActionTable[s].Actions[typ]
+		ref := 0
+		for k := 0; k <= nt; k++ {
+			if t == k {
+				ref = verifRefAction[r][k]
+			}
+		}
+		switch x := act.(type) {
+		case nil:
+			verifAssert(!ok && ref == 0, "no action in the shipped table iff none in the documented automaton")
+		case Accept:
+			verifAssert(ref == 1, "accept iff the documented automaton accepts")
+		case Shift:
+			verifAssert(ref >= 2 && verifInSim(int(x), ref-2), "shift iff the documented automaton shifts, into corresponding states")
+		case Reduce:
+			verifAssert(ref < 0 && int(x) < len(verifProdMap) && verifProdMap[int(x)] == -ref-1, "reduce iff the documented automaton reduces by the same production")
+		}
+		// goto
+		name := ""
+		for k := 0; k < len(verifNTNames); k++ {
+			if a == k {
+				name = verifNTNames[k]
+			}
+		}
+		g, gok := GotoTable[s][NT(name)]
+		rg := -1
+		for k := 0; k < len(verifNTNames); k++ {
+			if a == k {
+				rg = verifRefGoto[r][k]
+			}
+		}
+		if gok {
+			verifAssert(rg >= 0 && verifInSim(int(g), rg), "goto entries correspond")
+		} else {
+			verifAssert(rg < 0, "no goto entry iff none in the documented automaton")
+		}
+	}
+	verifCover("end")
+}
